@@ -67,3 +67,33 @@ var rxSnapMatchers = map[string]rxMatcherSnap{
 	"gobin":  {filter: []string{"Repository!=nil", "Repository.URI=https://pkg.go.dev/"}},
 	"nodejs": {filter: []string{"Repository!=nil", "Repository.Name=npm"}},
 }
+
+// Fetch (Gen/Fetch): candidate magics for detectCompression and the source order
+// of the tables of the fetcher, Layer.Init and setChecksum as Gen/Fetch printed them.
+var rxSnapFetchMagics = []string{"1f8b08", "28b52ffd", "425a68"}
+
+var rxSnapFetch = struct {
+	fixupTypes []string
+	fixupTable [][2]string
+	ctCases    []fxCtCase
+	tarMT      []string
+	dirMT      []string
+	algos      []fxAlgoFact
+}{
+	fixupTypes: []string{"", "text/plain", "binary/octet-stream", "application/octet-stream"},
+	fixupTable: [][2]string{{"KindGzip", "application/gzip"}, {"KindZstd", "application/zstd"}, {"KindNone", "application/x-tar"}},
+	ctCases: []fxCtCase{
+		{false, "application/vnd.docker.image.rootfs.diff.tar.gzip", "KindGzip"},
+		{false, "application/gzip", "KindGzip"},
+		{false, "application/x-gzip", "KindGzip"},
+		{true, ".tar+gzip", "KindGzip"},
+		{false, "application/zstd", "KindZstd"},
+		{true, ".tar+zstd", "KindZstd"},
+		{false, "application/x-tar", "KindNone"},
+		{true, ".tar", "KindNone"},
+	},
+	tarMT: []string{"application/vnd.oci.image.layer.v1.tar", "application/vnd.oci.image.layer.v1.tar+gzip", "application/vnd.oci.image.layer.v1.tar+zstd",
+		"application/vnd.oci.image.layer.nondistributable.v1.tar", "application/vnd.oci.image.layer.nondistributable.v1.tar+gzip", "application/vnd.oci.image.layer.nondistributable.v1.tar+zstd"},
+	dirMT: []string{"application/vnd.claircore.filesystem"},
+	algos: []fxAlgoFact{{"sha256", 32}, {"sha512", 64}},
+}
